@@ -48,7 +48,7 @@ def run_worker(modname, h, tier, idx, tmpdir):
     if h.pure_python:
         env['PURE_PYTHON'] = '1'
     scale = float(os.environ.get('ZVERIF_TIMEOUT_SCALE', '1'))
-    hard = cfg.get('timeout', 60) * scale + cfg.get('per_path_timeout', 60) + 60
+    hard = cfg['shards'][idx].get('_timeout', cfg.get('timeout', 60)) * scale + cfg.get('per_path_timeout', 60) + 60
     t0 = time.monotonic()
     try:
         p = subprocess.run([PY, '-m', 'zverif.worker', modname, h.name, tier, str(idx), out],
